@@ -16,6 +16,8 @@ CLAIMED = {
          "Sequences of whole-column and conditional stack assignments through fresh stackers (several alive at once, type-restricted, mapset stackers, re-stacking) are compared after every assignment with 'the same assignment applied to each list separately' on plain rows; lengths, order, classes, columns, other lists and metadata must be untouched.", "§5 C12"),
  "C08": ("session simulation: source charts driven through histories, then every converter judged against a row-copy model",
          "All 16 converters and convert_merge run on sources in history-made states (read/built/filtered/sorted/appended/stacked/rated/deep-copied); result rows, declared fields, no-missing-values, chart count, metadata slots are compared with the source's plain rows; frame invariants keep the source untouched now and after the result is edited.", "§5 C08"),
+ "C15": ("simulation of row-delivery histories: twin charts (same rows, scheduler-chosen delivery order) through one operation, confluence of denotations",
+         "The same multiset of rows is delivered into two charts in different orders through the construction histories the property names (unsorted construction, append one at a time, reverse sort, concatenation of parts); one operation (rate, each converter, full_ln, hitsound_copy, dominant_bpm, scroll_speed, sv_normalize, each writer) is applied to both and the denotations of the results must agree. No reference implementation of the operation is used.", "§5 C15"),
  "C13": ("session simulation: rate on history-made charts against an exact arithmetic model, shared-state frame checks, write seam",
          "rate(r) results are compared field by field with offsets/lengths divided and bpms multiplied (IEEE-exact, 1e-12 relative), all other fields and metadata equal, file-level osu/StepMania time fields scaled; originals are frame-checked now and after later edits of the copy; composition/identity follow per step.", "§5 C13"),
 }
